@@ -19,6 +19,23 @@ impl Compound for Look {
         let text = String::from_utf8(source.read(id, "lk")?.as_ref().to_vec())?;
         let mut seen = vec![];
         for peer in text.split_whitespace() {
+            // a load that panics (during a reload this happens on the hot-reloading thread): with a formatted message
+            // (String payload), a literal one (&'static str) or an arbitrary payload
+            match peer {
+                "panic:fmt" => {
+                    detsim::count("fault.loader_panics_during_reload");
+                    panic!("look {id} cannot be loaded ({} bytes)", text.len())
+                }
+                "panic:str" => {
+                    detsim::count("fault.loader_panics_during_reload");
+                    panic!("look cannot be loaded")
+                }
+                "panic:any" => {
+                    detsim::count("fault.loader_panics_during_reload");
+                    std::panic::panic_any(detsim::InjectedPanic(format!("look {id}")))
+                }
+                _ => {}
+            }
             if let Some(leaf) = peer.strip_prefix("leaf:") {
                 seen.push(cache.load::<LA>(leaf).ok().map(|h| h.read().0.bytes.len()));
             } else {
@@ -45,6 +62,8 @@ pub enum Op {
     /// rewrite a Look so that its next reload loads several hundred assets that are not cached yet (each registers itself
     /// with the reloader from the reloader's own thread), and notify it
     EditLookBig(usize, usize),
+    /// rewrite a Look so that its next (re)load panics (payload kind 0..3), and notify it
+    EditLookPanic(usize, u8),
 }
 #[derive(Clone, Debug, Serialize, Deserialize)]
 pub struct Work {
@@ -149,6 +168,12 @@ impl Property for C08 {
             let t = g.below(threads.len() as u64) as usize;
             let at = g.below(threads[t].len() as u64 + 1) as usize;
             threads[t].insert(at, Op::EditLookBig(g.below(nl as u64) as usize, 260 + g.below(80) as usize));
+            threads[t].insert(at + 1, Op::HotReload);
+        }
+        if nl > 0 && g.chance(1, 6) {
+            let t = g.below(threads.len() as u64) as usize;
+            let at = g.below(threads[t].len() as u64 + 1) as usize;
+            threads[t].insert(at, Op::EditLookPanic(g.below(nl as u64) as usize, g.below(3) as u8));
             threads[t].insert(at + 1, Op::HotReload);
         }
         let preload = (0..nl).filter(|_| g.chance(3, 4)).collect();
@@ -271,7 +296,10 @@ fn scenario(w: Work, nt: Shared<bool>) {
                                 let _ = cache.load::<LA>(&format!("k{k}"));
                             }
                             Op::LoadLook(i) => {
-                                let _ = cache.load::<Look>(&format!("q{i}"));
+                                // (the content may make the load panic: it unwinds to this caller, which goes on)
+                                let _ = detsim::reraise_abort(std::panic::catch_unwind(std::panic::AssertUnwindSafe(|| {
+                                    let _ = cache.load::<Look>(&format!("q{i}"));
+                                })));
                             }
                             Op::Insert(k) => {
                                 let _ = cache.get_or_insert::<TV>(&format!("ins{k}"), TV { n: *k as u64, t: Tracked::new("ins") });
@@ -298,6 +326,11 @@ fn scenario(w: Work, nt: Shared<bool>) {
                                 src.tree(|tr| tr.put(&format!("q{i}"), "lk", text.as_bytes()));
                                 src.notify(file_entry(&format!("q{i}"), "lk"));
                                 detsim::count("reach.reload_loading_hundreds_of_new_assets");
+                            }
+                            Op::EditLookPanic(i, kind) => {
+                                let text = format!("leaf:k0 {}", ["panic:fmt", "panic:str", "panic:any"][*kind as usize % 3]);
+                                src.tree(|tr| tr.put(&format!("q{i}"), "lk", text.as_bytes()));
+                                src.notify(file_entry(&format!("q{i}"), "lk"));
                             }
                             Op::DropSender => {
                                 src.drop_sender();
